@@ -101,6 +101,14 @@ def unstrained(case):
         if len(c) < 5 or seen & set(c):
             return False
         seen |= set(c)
+        # a triple bond or two cumulated double bonds want 180 degrees: inside a ring of fewer than nine atoms no geometry
+        # keeps all bonds near their covalent length (cyclohexa-diyne came back with a 0.35 A bond)
+        if len(c) < 9:
+            ring = set(c)
+            for a in c:
+                orders = [d['order'] for _, b, d in t.edges(a, data=True) if b in ring]
+                if 3 in orders or orders.count(2) >= 2:
+                    return False
     return True
 
 
